@@ -19,8 +19,8 @@ VERIF = os.path.dirname(os.path.dirname(os.path.abspath(__file__)))
 REPO = os.environ.get("VERIF_REPO", "/repo")
 HDR = os.path.join(REPO, "src", "api", "libcellml")
 DRIVER = os.path.join(VERIF, "harness", "drivers", "c09b.cpp")
-SKIP_HEADERS = {"generatorprofile.h", "undefines.h", "version.h", "enums.h", "strict.h", "exportdefinitions.h",
-                "analyserequationast.h"}
+# generatorprofile.h: ~300 free-text string setters of the code-generation profile, no entity / index / lookup name
+SKIP_HEADERS = {"generatorprofile.h", "undefines.h", "version.h", "enums.h", "exportdefinitions.h"}
 
 
 def strip_comments(s):
